@@ -1,6 +1,6 @@
 """C15 — incrementally maintained evaluation state equals recomputation: structural clauses C15-PAIR,
 C15-INV, C15-SAME, C15-WRITERS (DESIGN.md §3)."""
-from facts import norm, show, walk, strip_refs, is_call_to, callee_name, find_calls, guard_conditions, option_guard
+from facts import deep_strip, norm, show, walk, strip_refs, is_call_to, callee_name, find_calls, guard_conditions, option_guard
 import gh
 import pC02
 
@@ -128,12 +128,18 @@ def updates(fx, body):
                 continue
             e = body.expr(s["rv"].get("op"), expand_named=True) if s["rv"]["k"] == "use" else None
             found = False
-            for x in walk(e) if e else []:
-                if isinstance(x, tuple) and x[0] == "binop" and x[1] in ("AddWithOverflow", "SubWithOverflow", "Add", "Sub"):
-                    a, b = x[2], x[3]
-                    if is_field(a, flds[0]):
-                        out.append((flds[0], "+" if x[1].startswith("Add") else "-", b, bb))
-                        found = True
+            # the stored value must be exactly `field (+|-) term` (the `.0` of a checked op), not something computed from it
+            v = deep_strip(e) if e else None
+            if isinstance(v, tuple) and v and v[0] == "field" and v[2] == "0" and isinstance(deep_strip(v[1]), tuple) and deep_strip(v[1])[0] == "binop":
+                v = deep_strip(v[1])
+            if isinstance(v, tuple) and v and v[0] == "binop" and v[1] in ("AddWithOverflow", "SubWithOverflow", "Add", "Sub"):
+                a, b = v[2], v[3]
+                if is_field(a, flds[0]):
+                    out.append((flds[0], "+" if v[1].startswith("Add") else "-", b, bb))
+                    found = True
+                elif v[1].startswith("Add") and is_field(b, flds[0]):
+                    out.append((flds[0], "+", a, bb))
+                    found = True
             if not found:
                 out.append((flds[0], "=", e, bb))
     for bb, t in body.calls():
@@ -371,6 +377,9 @@ def rule_writers(fx, rep):
 G = "src/chess/game.rs"
 E = "src/engine/eval/mod.rs"
 MUTANTS = [
+    {"name": "set_at clamps the phase counter (seed C15-1)", "expect": "C15-INV",
+     "edits": [("src/engine/eval/mod.rs", "        self.phase_value += phased_eval::piece_phase_value_contribution(piece.kind);\n        self.piece_square_tables += piece_square_tables::piece_contributions(sq, piece);",
+                "        self.phase_value = (self.phase_value + phased_eval::piece_phase_value_contribution(piece.kind)).min(24);\n        self.piece_square_tables += piece_square_tables::piece_contributions(sq, piece);")]},
     {"name": "accumulator told a pawn was placed on promotion", "expect": "C15-PAIR/Game::set_at",
      "edits": [(G, "        self.incremental_eval.set_at(sq, piece);", "        self.incremental_eval.set_at(sq, Piece::new(piece.player, PieceKind::Pawn));")]},
     {"name": "phase only updated in set_at", "expect": "C15-INV",
